@@ -81,6 +81,10 @@ ExpectOf(c) == CASE c.shape \in {"long-and", "long-or"} ->
                  [] c.shape \in {"many-vars-read", "many-vars-in-block"} -> (IF c.n + 2 > Limits.stack THEN <<>> ELSE Dec((c.n - 1) % 7))   \* the two operands need two more slots
                  [] c.shape = "vars-distinct" -> Dec(200 + (c.n - 1))
                  [] OTHER -> <<>>
+\* where the "jump too long" diagnostic belongs: just after the last token of the over-long right operand, the ')' that closes it:
+\* print 0 and (1+1+...+1)  -- 13 bytes before the operand, 2m+1 bytes of operand, then ')'
+DiagCol(c) == IF c.shape \in {"long-and", "long-or", "long-and-nt", "long-or-nt"} /\ JumpSpan(c.n) > Limits.jump
+              THEN (IF c.shape \in {"long-or", "long-or-nt"} THEN 12 ELSE 13) + (2 * ((c.n - 2) \div 2) + 1) + 1 + 1 ELSE 0
 Emit == (Scope = "bytes" \/ phase >= 1) =>
-        PrintT(<<"CASE", ToJson([fam |-> "total", src |-> bs, shape |-> sc.shape, n |-> sc.n, expect |-> ExpectOf(sc), nt |-> (Len(bs) >= 2 \/ Scope \in {"scale", "varscale", "jumps"})])>>)
+        PrintT(<<"CASE", ToJson([fam |-> "total", src |-> bs, shape |-> sc.shape, n |-> sc.n, expect |-> ExpectOf(sc), dcol |-> DiagCol(sc), nt |-> (Len(bs) >= 2 \/ Scope \in {"scale", "varscale", "jumps"})])>>)
 ====
